@@ -400,9 +400,20 @@ pub fn literal() -> Vec<Config> {
     // SAFT-VR Mie: a spherical (m = 1) self-associating component (water-like 2B record; no shipped record of this kind): the closed-form A-B
     // association term next to the monomer term only (core for the virial property C13; thorough tier / oracle elsewhere)
     v.push(cfg("saftvrmie_literal_spherical_assoc", M::SaftVRMie(saftvrmie_spherical_assoc()), 1, 500.0, false));
+    // SAFT-VR Mie: a component with a C site only next to a component with A/B sites (no shipped record has C sites): the C-C association
+    // strength must come from the C-site component's own energy (padding / splitting / permutation cases of C09; oracle elsewhere)
+    v.push(cfg("saftvrmie_literal_csite_plus_ab", M::SaftVRMie(saftvrmie_csite_plus_ab()), 2, 450.0, false));
     // SAFT-VRQ Mie with mixed Feynman-Hibbs orders (thorough tier: ~10k instructions)
     v.push(cfg("saftvrqmie_literal_h2fh1_nefh0", M::SaftVRQMie(saftvrqmie_mixed_fh()), 2, 40.0, false));
     v
+}
+
+pub fn saftvrmie_csite_plus_ab() -> SaftVRMie {
+    use feos::saftvrmie::SaftVRMieRecord;
+    let rec = |mw: f64, eab: f64, na: f64, nb: f64, nc: f64| {
+        PureRecord::new(Identifier::default(), mw, SaftVRMieRecord::new(1.0, 3.0555, 418.0, 35.823, 6.0, Some(0.45), Some(eab), Some(na), Some(nb), Some(nc), None, None, None))
+    };
+    SaftVRMie::new(Arc::new(SaftVRMieParameters::from_records(vec![rec(18.0, 1000.0, 0.0, 0.0, 1.0), rec(20.0, 1600.0, 1.0, 1.0, 0.0)], None).unwrap()))
 }
 
 pub fn saftvrmie_spherical_assoc() -> SaftVRMie {
